@@ -241,9 +241,9 @@ fn c_optstr(r: &Option<String>) -> String { match r { Some(s) => format!("(Some 
 #[derive(Clone, Copy, PartialEq, Debug)]
 enum Flavour { Clean, WsOnly, BnodeDigit, ReservedPred, NoSplitPred, IllegalChar, Cr, BadLang, Generalised, Quoted }
 const SUBJECTS: [&str; 7] = ["http://e/s", "http://e/s?a=1&b='2'", "http://example.org/ns#x", "urn:x:y", "http://e/\u{e9}", "http://e/\u{1F600}/p", "http://e/t"];
-const BNODES: [&str; 8] = ["b", "b1", "a-b", "b.c", "_x", "\u{e9}t", "riog00000001", "\u{10000}a"];
+const BNODES: [&str; 11] = ["b", "b1", "a-b", "b.c", "_x", "__x", "_1", "_0a", "\u{e9}t", "riog00000001", "\u{10000}a"];
 const BAD_BNODES: [&str; 4] = ["0", "0a", "1.2", "9_"];
-const PREDS: [&str; 20] = ["http://e/p", "http://e/q", "http://example.org/ns#name", "http://e/a%20b", "http://e/1a", "http://e/-a", "http://e/.a", "http://e/a.b", "http://e/a-", "urn:x:y",
+const PREDS: [&str; 24] = ["http://example.org/ns/temp\u{b0}C", "http://e/2\u{d7}two", "http://e/a\u{f7}b", "http://e/\u{d7}", "http://e/p", "http://e/q", "http://example.org/ns#name", "http://e/a%20b", "http://e/1a", "http://e/-a", "http://e/.a", "http://e/a.b", "http://e/a-", "urn:x:y",
     "http://e/a:b", "http://e/\u{e9}", "http://e/\u{b7}a", "http://e/\u{10000}", "http://e/p?x=1&y='2'z", "http://www.w3.org/1999/02/22-rdf-syntax-ns#type", "http://www.w3.org/1999/02/22-rdf-syntax-ns#_1",
     "http://www.w3.org/1999/02/22-rdf-syntax-ns#value", "http://e/xmlns", "http://e/x\u{300}y\u{203f}"];
 const NOSPLIT_PREDS: [&str; 7] = ["http://e/", "http://e/123", "urn:1", "http://e/ns#", "http://e/p?x=1", "http://e/p?x=1&y='2'", "http://e/-1."];
@@ -263,7 +263,7 @@ fn gen_text(r: &mut Rng) -> String {
 fn gen_pred(r: &mut Rng) -> String {
     if r.chance(2, 3) { return r.ps(&PREDS).to_string(); }
     // random path: the split point falls wherever the last non-NCName character is
-    const PC: [&str; 30] = ["a", "b", "Z", "_", "1", "9", "-", ".", ":", "%41", "/", "#", "\u{e9}", "\u{b7}", "\u{300}", "\u{203f}", "~", "!", "$", "(", ")", "*", "+", ",", "=", "@", "&", "'", ";", "\u{10000}"];
+    const PC: [&str; 34] = ["a", "b", "Z", "_", "1", "9", "-", ".", ":", "%41", "/", "#", "\u{e9}", "\u{b7}", "\u{300}", "\u{203f}", "~", "!", "$", "(", ")", "*", "+", ",", "=", "@", "&", "'", ";", "\u{10000}", "\u{b0}", "\u{d7}", "\u{f7}", "\u{2190}"];
     let mut s = String::from("http://e/"); let mut frag = false;
     for _ in 0..r.range(1, 7) { let p = r.ps(&PC); if p == "#" { if frag { continue; } frag = true; } s.push_str(p); }
     if ncname_suffix(&s).is_empty() { s.push('k'); }
@@ -338,7 +338,9 @@ non-trivial = A: at least one representable triple and (a literal with a charact
         match flavour {
             Flavour::Clean => {}
             Flavour::WsOnly => { let mut w = String::new(); for _ in 0..r.range(1, 3) { w.push_str(r.ps(&WS)); } g[k][2] = if r.chance(1, 3) { lit_lang(&w, "en") } else if r.chance(1, 2) { lit_dt(&w, r.ps(&DATATYPES)) } else { lit_dt(&w, &format!("{XSD}string")) }; }
-            Flavour::BnodeDigit => { let b = bnode(r.ps(&BAD_BNODES)); if r.chance(1, 2) { g[k][0] = b } else { g[k][2] = b } }
+            Flavour::BnodeDigit => { let l = r.ps(&BAD_BNODES); let b = bnode(l); if r.chance(1, 2) { g[k][0] = b } else { g[k][2] = b }
+                // the label a renaming scheme would choose for it (underscore prefix) is present as well: they must stay two nodes
+                if r.chance(1, 2) { let twin = bnode(&format!("_{l}")); let t: T3 = if r.chance(1, 2) { [twin, some_p.clone(), lit_dt("twin", &format!("{XSD}string"))] } else { [some_s.clone(), iri("http://e/q"), twin] }; g.push(t); } }
             Flavour::ReservedPred => { g[k][1] = iri(&format!("{RDF}{}", r.ps(&RESERVED))); }
             Flavour::NoSplitPred => { g[k][1] = iri(r.ps(&NOSPLIT_PREDS)); }
             Flavour::IllegalChar => { let t = format!("{}{}{}", gen_text(&mut r), r.ps(&ILLEGAL), gen_text(&mut r)); g[k][2] = lit_dt(&t, &format!("{XSD}string")); }
